@@ -184,6 +184,8 @@ def run_check(modname, tier, seed, nshards=None, shard_timeout=None):
     mod = importlib.import_module(modname)
     prop = mod.PROPERTY
     t0 = time.time()
+    if hasattr(mod, "prepare"):
+        mod.prepare()           # one-off work that must not race between shards (e.g. building a reference binary)
     nshards = nshards or getattr(mod, "SHARDS", {}).get(tier, NCPU)
     nshards = max(1, min(nshards, NCPU))
     shard_timeout = shard_timeout or getattr(mod, "TIMEOUT", {}).get(
@@ -285,7 +287,7 @@ def finish(mod, total: Result, tier, seed, wall, write_evidence=True):
             "evaluations": int(total.evaluations),
             "distinct_nontrivial": len(total.nontrivial),
             "rule": mod.RULE,
-            "samples": total.samples[:8] or ["<none recorded>"],
+            "samples": _jsonable(total.samples[:8]) or ["<none recorded>"],
             "counters": dict(sorted(total.counters.items())),
             "maxima": total.maxima,
             "known_findings_reproduced": sorted(known_hit),
@@ -293,7 +295,7 @@ def finish(mod, total: Result, tier, seed, wall, write_evidence=True):
             "inconclusive_reasons": total.inconclusive[:5],
             "verdict": {0: "held on everything observed", 1: "violated", 2: "inconclusive"}[rc],
         }
-        cov.update(total.extra)
+        cov.update(_jsonable(total.extra))
         ev = {
             "property_id": prop,
             "tier": tier if tier in ("quick", "thorough") else "quick",
@@ -320,6 +322,19 @@ def finish(mod, total: Result, tier, seed, wall, write_evidence=True):
         print(l)
     sys.stdout.flush()
     return rc
+
+
+def _jsonable(o, depth=0):
+    """evidence samples are free-form: make them JSON-safe (bytes keys/values, tuples, sets ...)"""
+    if depth > 8:
+        return repr(o)[:200]
+    if isinstance(o, dict):
+        return {(k if isinstance(k, str) else repr(k)): _jsonable(v, depth + 1) for k, v in o.items()}
+    if isinstance(o, (list, tuple, set, frozenset)):
+        return [_jsonable(x, depth + 1) for x in o]
+    if isinstance(o, (str, int, float, bool)) or o is None:
+        return o
+    return repr(o)[:300]
 
 
 def run_replay(path):
